@@ -50,7 +50,9 @@ impl Cache {
         }
     }
     pub fn get_diagnostics(&mut self, uri: &Url) -> Vec<Diagnostic> {
-        let analyzer = self.analyzers.get_mut(uri).unwrap();
+        let Some(analyzer) = self.analyzers.get_mut(uri) else {
+            return vec![];
+        };
         assert!(!analyzer.handle.is_finished());
         analyzer.req_tx.send(Request::Diagnostic).unwrap();
         if let Ok(Notification::PublishDiagnostics(items)) = analyzer.noti_rx.recv() {
@@ -60,7 +62,7 @@ impl Cache {
         }
     }
     pub fn hover(&mut self, uri: &Url, pos: Position) -> Option<(String, Range)> {
-        let analyzer = self.analyzers.get_mut(uri).unwrap();
+        let analyzer = self.analyzers.get_mut(uri)?;
         assert!(!analyzer.handle.is_finished());
         analyzer.req_tx.send(Request::Hover(pos)).unwrap();
         if let Ok(Notification::Hover(hover)) = analyzer.noti_rx.recv() {
@@ -70,7 +72,7 @@ impl Cache {
         }
     }
     pub fn goto_definition(&mut self, uri: &Url, pos: Position) -> Option<Location> {
-        let analyzer = self.analyzers.get_mut(uri).unwrap();
+        let analyzer = self.analyzers.get_mut(uri)?;
         assert!(!analyzer.handle.is_finished());
         analyzer.req_tx.send(Request::GotoDefinition(pos)).unwrap();
         if let Ok(Notification::GotoDefinition(location)) = analyzer.noti_rx.recv() {
@@ -80,7 +82,9 @@ impl Cache {
         }
     }
     pub fn references(&mut self, uri: &Url, pos: Position, with_def: bool) -> Vec<Location> {
-        let analyzer = self.analyzers.get_mut(uri).unwrap();
+        let Some(analyzer) = self.analyzers.get_mut(uri) else {
+            return vec![];
+        };
         assert!(!analyzer.handle.is_finished());
         analyzer
             .req_tx
@@ -95,8 +99,7 @@ impl Cache {
     pub fn completion(&mut self, params: CompletionParams) -> Option<CompletionResponse> {
         let analyzer = self
             .analyzers
-            .get_mut(&params.text_document_position.text_document.uri)
-            .unwrap();
+            .get_mut(&params.text_document_position.text_document.uri)?;
         assert!(!analyzer.handle.is_finished());
         analyzer.req_tx.send(Request::Completion(params)).unwrap();
         if let Ok(Notification::Completion(resp)) = analyzer.noti_rx.recv() {
@@ -106,7 +109,7 @@ impl Cache {
         }
     }
     pub fn formatting(&mut self, params: DocumentFormattingParams) -> Option<Vec<TextEdit>> {
-        let analyzer = self.analyzers.get_mut(&params.text_document.uri).unwrap();
+        let analyzer = self.analyzers.get_mut(&params.text_document.uri)?;
         assert!(!analyzer.handle.is_finished());
         analyzer.req_tx.send(Request::Formatting(params)).unwrap();
         if let Ok(Notification::Formatting(resp)) = analyzer.noti_rx.recv() {
